@@ -87,6 +87,7 @@ def catalogue(n, tier):
     t, lo, hi = de[n.de]
     hi2 = min(hi, 300)
     vals = ['', 'A', '1', '-1', '1.5', '-.5', '.', '-', 'a', 'A ', '  ', ' A', 'A\x07', 'A\nB', '\xe9', 'A−',
+            'A\x01', 'A\x06B', '\x11', 'A\x17', 'A\x1c', '2004\x050101', '12\x1530', 'A\tB', 'A\rB', '\x02' * max(1, lo), '20040101\x13',
             '20040230', '20040229', '20040101-20040102', '20040101-2004010', '2400', '1230', '123045', '1230456', '12304567',
             '040229', '990230', '200402291230', '200402292460', '20040400', '20040100', '20041301', '20040001', '20040132',
             '040400', '041301', '21000229', '20000229', '18000101', '17991231', '2400', '2360', '235960', '23595999', '235959999',
